@@ -12,9 +12,14 @@
                            the same entry as long as it is custom or still in the expire queue
   * `fifo_eviction`      : the expire queue is exactly the last `cap` generated entries in creation order, ids are
                            0,1,2,…, and an entry that left the queue is not served under any key any more
+  * `refines_abstract_fifo_cache` : for every history the store produces the same results as, and stays related to, an
+                           abstract "registration table + FIFO cache of the last cap generated certificates keyed by
+                           (cn, sans)"; `cache_bounded_via_refinement`, `dict_is_cache_and_registrations` are corollaries
+  * `first_registered_name_wins` : the lookup order — first registered potential name (CN forms, SAN forms in order, `*`)
   * `mem_asteriskForms_iff` : asterisk_forms yields exactly the names allowed by the wildcard rule
 -/
 import MitmVerif.Lemmas.C17
+import MitmVerif.Lemmas.C17Refine
 namespace MitmVerif.Props.C17
 open MitmVerif MitmVerif.C17
 
@@ -205,6 +210,55 @@ theorem fifo_eviction (cap : Nat) (ops : List Op) :
     | name n => simp only at hc; rw [hc] at hg; cases hg
     | gen cn sans => exact hnq hc.2.2.2
 
+/-! ### refinement: the store IS a registration table plus a bounded FIFO cache keyed by (cn, sans) -/
+
+/-- **Refinement.** For every capacity and every history, the real store (dict + expire queue, `expire` rebuilding
+    the dict by value) and the abstract store (`Abs`: a function name ↦ registered certificate, and the list of
+    generated certificates in creation order, cut to the last `cap`) produce the same result for every operation,
+    and stay related: same registrations under every name, abstract cache = expire queue, same id counter. -/
+theorem refines_abstract_fifo_cache (cap : Nat) (ops : List Op) :
+    trace cap Store.empty ops = absTrace cap Abs.empty ops ∧
+    Refines cap (run cap Store.empty ops) (absRun cap Abs.empty ops) :=
+  refines_trace ops (refines_empty cap)
+
+/-- corollary (through the abstract machine): the bound -/
+theorem cache_bounded_via_refinement (cap : Nat) (ops : List Op) :
+    (run cap Store.empty ops).queue.length ≤ cap := by
+  rw [← (refines_abstract_fifo_cache cap ops).2.cache]
+  exact abs_cache_le cap ops Abs.empty (by simp [Abs.empty])
+
+/-- corollary: after any history, what the dict holds under a generated key is exactly what the abstract cache
+    finds for that key, and what it holds under a name is exactly the abstract registration -/
+theorem dict_is_cache_and_registrations (cap : Nat) (ops : List Op) (cn : Option Bytes) (sans : List San) (n : Bytes) :
+    lookup (.gen cn sans) (run cap Store.empty ops).certs = cacheFind cn sans (absRun cap Abs.empty ops).cache ∧
+    lookup (.name n) (run cap Store.empty ops).certs = (absRun cap Abs.empty ops).custom n := by
+  have h := (refines_abstract_fifo_cache cap ops).2
+  exact ⟨by rw [h.cache]; exact lookup_gen_eq_cacheFind h.inv cn sans, h.names n⟩
+
+/-- **Lookup order.** In any store: if `n` is the first potential key of the request (CN forms, then each SAN's
+    forms in order, then `*`) that is registered, its certificate is returned — exact names beat wildcards, names
+    earlier in the request beat later ones, every registration beats the generated-certificate cache. -/
+theorem first_registered_name_wins (cap : Nat) (ok : Bool) (s : Store) (cn : Option Bytes) (sans : List San)
+    (pre post : List Bytes) (n : Bytes) (e : Entry)
+    (hsplit : potentialNames cn sans = pre ++ n :: post)
+    (hpre : ∀ m ∈ pre, lookup (.name m) s.certs = none)
+    (hn : lookup (.name n) s.certs = some e) :
+    getCert cap ok s cn sans = (s, .hit e) := by
+  have hfirst : firstHit s.certs (potentialKeys cn sans) = some e := by
+    simp only [potentialKeys, hsplit, List.map_append, List.map_cons, List.append_assoc, firstHit_append]
+    have hp : firstHit s.certs (pre.map Key.name) = none := by
+      clear hsplit
+      induction pre with
+      | nil => rfl
+      | cons m ms ih =>
+        simp only [List.map_cons, firstHit, hpre m (by simp)]
+        exact ih (fun x hx => hpre x (List.mem_cons_of_mem _ hx))
+    simp only [hp, List.cons_append, firstHit, hn]
+  rcases getCert_cases cap ok s cn sans with ⟨e', hf, hg⟩ | ⟨hf, _, _⟩ | ⟨hf, _, _⟩
+  · rw [hfirst] at hf; simp at hf; rw [hg, hf]
+  · rw [hfirst] at hf; cases hf
+  · rw [hfirst] at hf; cases hf
+
 /-! ### non-vacuity: the hypotheses are satisfiable and the model is not constant -/
 
 private def sanA : San := ⟨0, [0x61, dot, 0x62]⟩          -- DNS:a.b
@@ -222,6 +276,16 @@ example : Registered [reqA, reg] [star, dot, 0x62] ⟨true, 7, none, []⟩ :=
   ⟨7, none, [], [[star, dot, 0x62]], by simp [reg], rfl, by simp [addKeys]⟩
 example : MatchesRequest [star, dot, 0x62] none [sanA] :=
   Or.inr (Or.inl ⟨sanA, by simp, Or.inl ⟨rfl, Or.inr ⟨[0x61], [0x62], rfl, rfl⟩⟩⟩)
+-- lookup order: exact name before its wildcard before "*" (potential names of SAN a.b: a.b, *.b, *)
+example : potentialNames none [sanA] = [[0x61, dot, 0x62], [star, dot, 0x62], [star]] := by decide
+example : (getCert 2 true (run 2 Store.empty [.add 1 none [] [[star]], .add 2 none [] [[star, dot, 0x62]], .add 3 none [] [[0x61, dot, 0x62]]])
+    none [sanA]).2 = .hit ⟨true, 3, none, []⟩ := by decide
+example : (getCert 2 true (run 2 Store.empty [.add 1 none [] [[star]], .add 2 none [] [[star, dot, 0x62]]]) none [sanA]).2
+    = .hit ⟨true, 2, none, []⟩ := by decide
+-- the abstract and the real machine agree on a concrete history (and it is not a constant trace)
+example : trace 1 Store.empty [reqA, reqB, reqA, reg, reqA] =
+    [some (.fresh ⟨false, 0, none, [sanA]⟩), some (.fresh ⟨false, 1, some [0x63], []⟩), some (.fresh ⟨false, 2, none, [sanA]⟩),
+     none, some (.hit ⟨true, 7, none, []⟩)] := by decide
 -- dummy_cert failing leaves the store unchanged
 example : (getCert 2 false Store.empty (some []) []).2 = .err := by decide
 
